@@ -1,13 +1,15 @@
 (* C18 - handlers fail closed and do not leak between requests. The data-race part of the property
    lives in the Go memory model, which this model cannot exhibit: it is decided by running the real
    router under the race detector (stream l6-conc). What is logic is proved here: every response
-   carries a documented status, no handler writes state shared between requests outside the
-   repository mutex, and a request's logging context holds its own identifiers only. *)
+   carries a documented status, no handler or helper writes state shared between requests outside the
+   repository mutex (no captured variable, no package-level variable), and a request's logging context holds its own identifiers only. *)
 From Wire Require Import Base.Bytes Model.GoV Model.Message Model.Writer Model.Reader Model.Server Theory.ServerFacts.
 From WireGen Require Import Handlers.
 
 Definition ob_c18 : bool :=
   match captured_assignments with [] => true | _ => false end &&
+  match package_var_writes with [] => true | _ => false end &&
+  get_writer_recognised && validate_opts_recognised && get_file_id_recognised &&
   repo_methods_locked && forallb snd handler_recognised && (length handler_recognised =? 7) &&
   forallb (fun s => String.eqb s "http.StatusCreated" || String.eqb s "http.StatusOK") success_statuses.
 
